@@ -19,6 +19,7 @@ func init() {
 	vpRegister("VPH_C06_step", VPH_C06_step)
 	vpRegister("VPH_C06_releaseall", VPH_C06_releaseall)
 	vpRegister("VPH_C06_stale", VPH_C06_stale)
+	vpRegister("VPH_C06_requests", VPH_C06_requests)
 }
 
 type vpTable struct {
@@ -479,5 +480,45 @@ func VPH_C06_stale() {
 		nd := f.(*NFSNode)
 		vpAssert(vpOr(vpAnd(q == hd, nd.path == "/d"), vpAnd(q == hx, nd.path == "/d/x")), "live-handle-names-its-object")
 		vpAssert(st != NFSERR_STALE, "live-handle-not-STALE")
+	}
+}
+
+// VPH_C06_requests: through the real handlers, with no eviction and no explicit Release anywhere:
+// a client looks up a, then a is removed, renamed away or left alone, then another client looks up
+// b (a path that never had a handle). The value given out for a is not given out for b, and a later
+// GETATTR with a's handle is answered with an error or with attributes of a's path - never b's.
+func VPH_C06_requests() {
+	fs := vpNewFS()
+	fs.addDir("/d")
+	fs.addFileData("/d/a", []byte("AAAA"))
+	fs.addFileData("/d/b", []byte("BBBBBB"))
+	fs.addAbsent("/d/c")
+	env := vpServer(fs, ExportOptions{})
+	hd := env.handleFor("/d")
+	lookup := func(name string) uint64 {
+		var b vpBuf
+		rd := &vpRd{b: vpReplyBytes(env.call(NFSPROC3_LOOKUP, b.fh(hd).str(name).Bytes()))}
+		vpAssert(rd.u32() == NFS_OK, "lookup-ok")
+		return (&vpRd{b: rd.opaque()}).u64()
+	}
+	ha := lookup("a")
+	var m vpBuf
+	switch vpChoose("then", 0, 2) {
+	case 1:
+		rd := &vpRd{b: vpReplyBytes(env.call(NFSPROC3_REMOVE, m.fh(hd).str("a").Bytes()))}
+		vpAssert(rd.u32() == NFS_OK, "removed")
+		vpReach("removed")
+	case 2:
+		rd := &vpRd{b: vpReplyBytes(env.call(NFSPROC3_RENAME, m.fh(hd).str("a").fh(hd).str("c").Bytes()))}
+		vpAssert(rd.u32() == NFS_OK, "renamed")
+		vpReach("renamed")
+	}
+	hb := lookup("b")
+	vpAssert(hb != ha, "value-given-out-for-one-path-not-given-out-for-another")
+	var g vpBuf
+	rd := &vpRd{b: vpReplyBytes(env.call(NFSPROC3_GETATTR, g.fh(ha).Bytes()))}
+	if rd.u32() == NFS_OK {
+		a := rd.fattr()
+		vpAssert(a.fileid == vpFnv64a("/d/a"), "old-handle-never-served-against-another-path")
 	}
 }
